@@ -3,6 +3,7 @@ use std::io::Read;
 mod fixed_size;
 pub mod rabin;
 
+pub(crate) use fixed_size::check_fixed_size_params;
 use fixed_size::ChunkIter as FixedSizeChunkIter;
 use rabin::ChunkIter as RabinChunkIter;
 use rustic_cdc::Rabin64;
@@ -37,11 +38,14 @@ impl<R: Read + Send> ChunkIter<R> {
                     size_hint,
                 )?))
             }
-            Chunker::FixedSize => Self::FixedSize(FixedSizeChunkIter::new(
-                config.chunk_size(),
-                reader,
-                size_hint,
-            )),
+            Chunker::FixedSize => {
+                check_fixed_size_params(config.chunk_size())?;
+                Self::FixedSize(FixedSizeChunkIter::new(
+                    config.chunk_size(),
+                    reader,
+                    size_hint,
+                ))
+            }
         };
         Ok(iter)
     }
